@@ -54,7 +54,7 @@ func genC05(t *rapid.T) Case {
 	cross := rapid.Bool().Draw(t, "crossProcess")
 	nseg := rapid.IntRange(2, 4).Draw(t, "segments")
 	for s := 0; s < nseg; s++ {
-		w := map[string]int{"begin": 2, "set": 10, "del": 3, "commit": 3, "rollback": 1, "gc": 1}
+		w := map[string]int{"begin": 2, "set": 10, "del": 3, "commit": 3, "rollback": 1, "gc": 1, "otherdb": 1}
 		maxOps := 8
 		if s == 0 {
 			maxOps = 16 // the first life of the database writes more, so that persisted version numbers are high
